@@ -160,6 +160,37 @@ def parse_msf(data, wrap=60):
     return rows, problems, hdr
 
 
+def parse_blocks_loose(data, fmt):
+    """Clustal/MSF as kalign writes them, for rows whose NAME may contain blanks (names read from garbage input):
+    rows are matched by position within a block, the residues are the last blank-separated token of a line
+    (kalign writes the 60-column chunk without blanks), everything before it is the name."""
+    lines = data.split(b'\n')
+    if fmt.startswith('msf'):
+        sep = next((k for k, ln in enumerate(lines) if ln.strip() == b'//'), None)
+        if sep is None:
+            return []
+        body = lines[sep + 1:]
+    else:
+        body = lines[1:]
+    names, seqs = [], []
+    for bi, blk in enumerate(_blocks(body)):
+        cur = []
+        for ln in blk:
+            t = ln.split()
+            if not t:
+                continue
+            seq = t[-1]
+            cur.append((ln[:len(ln.rstrip()) - len(seq)].rstrip(), seq))
+        if bi == 0:
+            names = [n for n, _ in cur]; seqs = [[x] for _, x in cur]
+        else:
+            if len(cur) != len(names):
+                return []
+            for k, (_, x) in enumerate(cur):
+                seqs[k].append(x)
+    return [(n, b''.join(p)) for n, p in zip(names, seqs)]
+
+
 # ---------------------------------------------------------------- writers (for C04 presentations)
 
 def wrap_lines(s, width):
